@@ -133,3 +133,10 @@ CHECKS["C29"] = {
     "text": "Both kernel-renaming schemes, 1-3 concurrent PSyclone runs (identical kernel, differently transformed kernel, different kernel, two kernels in one run), directory empty or pre-populated: all interleavings for two runs (complete, up to 5 preemptions) and three runs up to 3 (AAA) / 1 (AAB) preemptions in quick (511 schedules, 4.3k FS operations); thorough extends the three-run bounds. Oracle per complete schedule: fresh files per run under 'multiple', names inside each file match the file, each PSy layer uses what it wrote, 'single' shares identical kernels and fails differing ones.",
     "note": "Sound reductions (os.close and pid-private files not branched on; same-typed runs start in index order) are cross-checked against the unreduced two-run system. Deadlock, divergence on replay and step timeouts are harness errors. Fixed: 'single' scheme reader could see the creator's empty file (atomic publish by link).",
 }
+
+CHECKS["C19"] = {
+    "level": "model_checking",
+    "technique": "exhaustive enumeration of tangent-linear kernels x active-variable sets through the real psyad generate_adjoint_str; both codes executed by the exact E1 interpreter (Fractions) on every unit vector of the active state for every passive valuation: the adjoint's matrix must be exactly the transpose of the tangent-linear matrix (=> <Ax,y> = <x,A*y> for all x,y), with additivity/homogeneity probes and passive variables unchanged; thorough also compiles and runs the generated test harness",
+    "text": "quick: 1,001 kernels / 1,411 (kernel, active set) elements, 175k E1 runs; thorough: 3,889 kernels / 5,829 elements plus the gfortran-compiled harness for the quick elements. Kernels are product families of assignments A = sum c_k*B_k (increments, scalings, zeroing; literal/passive/array coefficients; division by passive), loops with steps +-1, 2, -3 and expression bounds, nesting, and IF blocks on passive data.",
+    "note": "Exact rational arithmetic: no tolerance. Kernels PSyAD documents as unsupported (issue #1458) are skipped; refusals are allowed. Open finding: a zero-trip loop with |step|>1 executes one iteration in the adjoint (MOD vs MODULO; three text-comparison tests pin MOD). Fixed: sign of a subtracted increment term; unbracketed lower bound in the reversed-loop offset.",
+}
